@@ -353,3 +353,44 @@ Definition probe_decode (i : item) : item :=
 
 Definition decode_stream_probe (fr : framer) (sched : list rd) (src : list byte) :=
   let! '(its, r, s) := decode_stream fr sched src in Ok (map probe_decode its, r, s).
+
+(* ---------------------------------------------------------------------- *)
+(* construction paths: new(), Default::default(), Clone of either.
+   LengthDelimited and NoopFramer implement Default by hand (new = default);
+   CharDelimited<C> derives it: the only field is a 4-byte scratch buffer into
+   which C is UTF-8 encoded anew by every enclose/extract (as_any_delimited),
+   so its initial content does not matter; AnyDelimited has no Default.        *)
+
+Inductive ctor := CNew | CDefault | CCloneNew | CCloneDefault.
+
+Record length_delimited := mkld { ld_lfl : nat; ld_be : bool }.
+Definition ld_new : length_delimited := mkld 4 true.
+Definition ld_default : length_delimited := mkld 4 true.          (* impl Default *)
+Definition ld_set (l : length_delimited) (lfl : nat) (be : bool) : length_delimited :=
+  mkld lfl be.                                  (* set_length_field_len, set_..._is_big_endian *)
+Definition ld_framer (l : length_delimited) : framer := LenDelim (ld_lfl l) (ld_be l).
+
+Record char_delimited := mkcd { cd_char : N; cd_buf : list byte }.
+Definition cd_new (c : N) : char_delimited := mkcd c [0; 0; 0; 0]%N.
+Definition cd_default (c : N) : char_delimited := mkcd c [0; 0; 0; 0]%N.   (* derive(Default) *)
+(* as_any_delimited: C.encode_utf8(&mut self.char_buf) *)
+Definition cd_framer (cd : char_delimited) : framer := AnyDelim (utf8 (cd_char cd)).
+
+Definition noop_new : framer := Noop (nn Consts.NOOP_MAX_SIZE).
+Definition noop_default : framer := Noop (nn Consts.NOOP_MAX_SIZE).         (* impl Default *)
+
+Definition via {A} (ct : ctor) (new default : A) : A :=
+  match ct with
+  | CNew | CCloneNew => new           (* derive(Clone, Copy): a clone is the value *)
+  | CDefault | CCloneDefault => default
+  end.
+
+Inductive fspec := FLen (lfl : nat) (be : bool) | FAny (d : list byte) | FChar (c : N) | FNoop.
+
+Definition framer_via (ct : ctor) (s : fspec) : framer :=
+  match s with
+  | FLen lfl be => ld_framer (ld_set (via ct ld_new ld_default) lfl be)
+  | FAny d => AnyDelim d
+  | FChar c => cd_framer (via ct (cd_new c) (cd_default c))
+  | FNoop => via ct noop_new noop_default
+  end.
